@@ -5,6 +5,10 @@ OFFLINE = "offline"
 
 PROPS = {
     "C02": dict(
+        technique='runtime monitoring: online reference-model monitor with tag pieces (returned value reveals the selected segment)',
+        level_text='Exploration by runtime monitoring. Piecewise::evaluate is executed on generated well-formed functions (1-10^4 segments, duplicates, zero-width, one-ulp-wide, +-0, +-inf ends) at every critical query of each function, plus a complete small scope; each answer is compared bit for bit with an independent 5-line model of half-open selection, for tag pieces and for all 28 real piece types.',
+        level_note='Trusted: the reference model sel(); tag values are a 64-bit mix of (segment id, argument bits).',
+       
         kind=ONLINE,
         rule=("cases = distinct piecewise functions (piece type, bit patterns of all ends and coefficients); each is "
               "probed through Piecewise::evaluate at every critical query of its own breakpoints (each end, one ulp "
@@ -15,6 +19,10 @@ PROPS = {
                      "returning the same value (probability 2^-63 per comparison) would hide a wrong selection"],
     ),
     "C03": dict(
+        technique='runtime monitoring: online trace monitor over hostile query histories + state-hash-guided exploration of evaluator states to a fixpoint',
+        level_text="Exploration by runtime monitoring. Every answer of a fresh PiecewiseEvaluator along generated histories (9 movement policies, up to 1e5 queries in thorough) is compared with the reference model and with direct evaluation; in addition the evaluator's reachable (cursor, last argument) states are explored breadth-first through hook H1 (hashing only) applying every critical query in every state, which covers every history over that alphabet for the explored functions.",
+        level_note='Trusted: H1 exposes the whole mutable state (if a change adds state, the fixpoint argument no longer holds; the random histories remain); reference model sel().',
+       
         kind=ONLINE,
         rule=("cases = distinct (function, query history) pairs plus distinct explored functions; workload A runs "
               "generated hostile histories (9 movement policies, 1..300 queries, 1e5 in thorough) through a fresh "
@@ -27,6 +35,10 @@ PROPS = {
                      "tag-value collisions (2^-63 per comparison)"],
     ),
     "C12": dict(
+        technique='runtime monitoring: online trace monitor of evaluate_v (values, running-maximum rule, laziness by counting pulled inputs)',
+        level_text='Exploration by runtime monitoring: every output of evaluate_v on generated sequences (sorted and unsorted, repeats, breakpoint hits, +-inf; up to 1e5 long in thorough) plus all ordered pairs of critical queries for small functions, compared with the reference model for the running maximum and with pointwise evaluation while non-decreasing; inputs pulled == outputs produced after every step.',
+        level_note='Trusted: reference model sel(); tag values.',
+       
         kind=ONLINE,
         rule=("cases = distinct (function, argument sequence) pairs plus functions whose ordered pairs of critical "
               "queries were all explored; every output of evaluate_v is compared (bits) with the piece selected by "
@@ -35,6 +47,10 @@ PROPS = {
         assumptions=["tag-value collisions (2^-63 per comparison)"],
     ),
     "C16": dict(
+        technique="runtime monitoring: online monitors for NaN/inf histories (trace + exploration to a fixpoint) and a panic sweep over all other drivers' workloads",
+        level_text="Exploration by runtime monitoring: C03's histories and state exploration with NaN/+-inf in the alphabet (every non-NaN answer after a NaN compared bit for bit with direct evaluation), direct evaluation and evaluate_v on every f64 class, and the workloads of all 18 other drivers re-run with only panics transferred; documented rejections exercised and recorded. This check found defect D2 on the pinned tree.",
+        level_note="Trusted: 'well-formed finite input' is what the other drivers' generators produce; profile with debug assertions and overflow checks on (superset of release panics).",
+       
         kind=ONLINE, sweep=True,
         rule=("cases = distinct (function, history containing NaN/inf) pairs, explored functions with NaN in the "
               "alphabet, and (function, argument list) pairs for direct evaluation / evaluate_v; plus the panic "
@@ -45,6 +61,10 @@ PROPS = {
                      "strictly increasing abscissae for the spline, non-empty non-NaN non-decreasing breakpoints)"],
     ),
     "C13": dict(
+        technique='runtime monitoring: online monitor with symbolic pair pieces (which left piece met which right piece) and real IntOfLogPoly4 pieces',
+        level_text='Exploration by runtime monitoring of &f+&g and &f-&g on generated pairs of breakpoint lists (identical, subset, neighbours/duplicates, disjoint, nested, interleaved, single piece, up to 3000 pieces) and a complete small scope: structure of the result and, at every critical query of either operand, the combined pieces against the reference model; real pieces bit-equal to the IEEE sum/difference of the selected pieces (operands partly correlated).',
+        level_note='Trusted: reference model sel(); a logical step budget (len f + len g + 4 piece combinations) turns a non-terminating merge into an observed violation instead of a hang.',
+       
         kind=ONLINE,
         rule=("cases = distinct ordered pairs of breakpoint lists (symbolic pair pieces) and distinct pairs of "
               "Piecewise<IntOfLogPoly4> (all numbers); for each, both &f+&g and &f-&g are executed and, at every "
@@ -57,6 +77,10 @@ PROPS = {
                      "deciding oracle is structural + bit-exact"],
     ),
     "C14": dict(
+        technique='runtime monitoring: online bit-exact monitor over a table naming every operator impl',
+        level_text='Exploration by runtime monitoring: each of the 125 operator impls (Mul, MulAssign, Neg, Add, Sub, Translate on Poly0-8, PolyN, Log<.>, IntOfLog<.>, IntOfLogPoly4) is executed on generated operands (zeros, -0, subnormal, huge, correlated pairs) and every returned number compared by bits with the single IEEE operation; then compared at value level with the pointwise operation.',
+        level_note='Trusted: the impl table was read off the source (a removed impl breaks the harness build => inconclusive; an added impl is not covered until listed).',
+       
         kind=ONLINE,
         rule=("cases = distinct (operator impl, operand numbers, scalar) triples; each of the 125 operator impls "
               "named in harness/src/c14.rs is executed and every returned number compared by bits with the single "
@@ -67,6 +91,10 @@ PROPS = {
                      "and counted"],
     ),
     "C15": dict(
+        technique='runtime monitoring: online monitor with operation-recording pieces and bit-exact comparison on real pieces',
+        level_text='Exploration by runtime monitoring of *, *=, (&mut Segment) *=, neg, translate on Segment and Piecewise (1-5000 pieces): count, order and every breakpoint bit preserved, exactly the one operation with the given scalar applied to every piece; real piece types bit-equal to the operation applied to each piece alone, value level on both sides of every breakpoint.',
+        level_note='Trusted: recorder pieces accept Mul or MulAssign for scaling and Neg or *(-1) for negation (both are bit-identical on real pieces).',
+       
         kind=ONLINE,
         rule=("cases = distinct (function, scalar, translation) triples; operation-recording pieces show that "
               "*, *= (value and &mut Segment), neg and translate on Segment/Piecewise apply exactly the one "
@@ -75,6 +103,10 @@ PROPS = {
               "applied to each piece alone, and (polynomials) at value level on both sides of every breakpoint"),
     ),
     "C17": dict(
+        technique="runtime monitoring: online monitor comparing approx relations with the number-by-number conjunction of f64's own relations",
+        level_text='Exploration by runtime monitoring of abs_diff_eq / relative_eq on every type with the approx traits: every field position perturbed in turn by seven amounts around the tolerance, all tolerance pairs, Segment (end included), Piecewise (random positions, different lengths), PolyN; symmetry, ==-implication and default tolerances checked.',
+        level_note="Trusted: approx's f64 implementations define the single-number relation.",
+       
         kind=ONLINE,
         rule=("cases = distinct (type, base value, tolerances) triples; for each, every field position in turn is "
               "perturbed by {0, tol/2, just inside, 2 tol, far, huge, 1 ulp} and abs_diff_eq / relative_eq (both "
@@ -83,6 +115,10 @@ PROPS = {
         assumptions=["approx's f64::abs_diff_eq / relative_eq are the reference for a single pair of numbers"],
     ),
     "C18": dict(
+        technique='runtime monitoring: online round-trip monitor over serde_json, serde_cbor and borsh in two feature configurations',
+        level_text="Exploration by runtime monitoring: every serializable type (Knot, Poly0-8, Log<.>, IntOfLog<.>, IntOfLogPoly4, Segment<.>, Piecewise<.> with 0-100003 segments) with all non-NaN contents (subnormals, -0.0, MAX, +-inf in binary formats) is round-tripped and compared by bits and by ==; built without and with the library's borsh feature.",
+        level_note='Trusted: serde_json with float_roundtrip, serde_cbor, borsh as transport; a field that is skipped or reordered shows as a changed number.',
+       
         kind=ONLINE,
         configs=[dict(profile="verif", features=None, label="noborsh-"), dict(profile="verif", features="borsh", label="borsh-")],
         rule=("cases = distinct serialized values (type + bit patterns); each is round-tripped through serde_json "
@@ -92,6 +128,10 @@ PROPS = {
         assumptions=["serde_json is built with float_roundtrip (otherwise the text format itself is not f64-faithful)"],
     ),
     "C19": dict(
+        technique='runtime monitoring: online monitor of Arbitrary on random and wire-format-structured byte strings',
+        level_text='Exploration by runtime monitoring: Piecewise<T>::arbitrary on ~2e5 (quick) / ~1e7 (thorough) byte strings (random, and structured to decode to empty lists, NaN/inf/subnormal/zero/descending/duplicate/extreme ends, 1000 ends, exhaustion inside ends or pieces) for tag pieces, Poly0-8 and PolyN: never panics, Ok values well-formed, three evaluation paths agree at the critical queries.',
+        level_note="Trusted: arbitrary 1.4.2's wire format for Vec<f64> (structured inputs are checked to decode as intended only through the result they produce).",
+       
         kind=ONLINE,
         rule=("cases = distinct byte strings (random and structured in arbitrary-1.4's wire format: empty list, "
               "NaN/inf/subnormal/zero ends, descending, duplicate, extreme, 1000 ends, exhausted inside ends or "
@@ -100,6 +140,10 @@ PROPS = {
               "at the critical queries (forward and backward through the evaluator)"),
     ),
     "C01": dict(
+        technique='runtime monitoring: recorded evaluation events decided offline by an exact-rational / 400-bit reference oracle',
+        level_text="Exploration by runtime monitoring. The real evaluate() of every polynomial form is executed on ~3e5 (quick) / ~4e7 (thorough) generated inputs per run covering the classes the property names (one-hot lanes, sign patterns, cancellation, |x| from 1e-12 to 1e12, v within ulps of 1, tiny, huge); every returned value is compared with the exact mathematical value under the property's own bound (equality in the exactly-representable class). Held on what was observed; inputs not run are not covered.",
+        level_note="Trusted: Python Fraction / mpmath (400 bits, guarded by an 800-bit recomputation of every 97th Log event), IEEE-754 host arithmetic, glibc ln within 1 ulp (the property's own allowance), the generators' classification of the domain.",
+       
         kind=OFFLINE, oracle="c01.py",
         rule=("cases = distinct (form, coefficient bits, argument bits) evaluations of Poly0-8, PolyN (length 0-12) "
               "and Log<Poly0-8>; the driver records the returned bits, the oracle recomputes sum c_i x^i in exact "
@@ -110,6 +154,10 @@ PROPS = {
                      "mpmath at 400 bits is exact enough; every 97th Log event is recomputed at 800 bits (guard)"],
     ),
     "C07": dict(
+        technique='runtime monitoring: recorded integration events decided offline by an exact-rational oracle; Segment structure online',
+        level_text='Exploration by runtime monitoring of indefinite()/integral(knot) on Poly0-7 (~2e5 quick / ~5e6 thorough events): coefficients, value through the knot (exact evaluation of the returned polynomial), F(b)-F(a) against the exact integral, derivative of the result within one ulp.',
+        level_note='Trusted: Fraction arithmetic; bounds (4(n+3)+2)u and (4(n+3)+4)u times term magnitudes.',
+       
         kind=OFFLINE, oracle="c07.py",
         rule=("cases = distinct (degree 0-7, coefficient bits, knot, a, b) tuples; the driver records indefinite(), "
               "integral(knot), its derivative and evaluations at knot.x, a, b; the oracle checks in exact rational "
@@ -119,6 +167,10 @@ PROPS = {
               "integral compared bit for bit with the piece's (online)"),
     ),
     "C08": dict(
+        technique='runtime monitoring: recorded derivative events decided offline exactly; piece-by-piece structure decided online with trace probes and real pieces',
+        level_text="Exploration by runtime monitoring of derivative() on Poly0-8 (exact product for factors 1,2,4,8, one ulp otherwise, value vs exact p'(x)) and of Segment/Piecewise::derivative (count, order, every breakpoint bit, piece == piece.derivative()).",
+        level_note='Trusted: Fraction arithmetic; trace probes record which piece was differentiated.',
+       
         kind=OFFLINE, oracle="c08.py",
         rule=("cases = distinct (degree 0-8, coefficient bits, x) tuples for the coefficient/value oracle (exact: "
               "D_i == (i+1)c_(i+1) for factors 1,2,4,8, within one ulp otherwise; derivative().evaluate(x) vs exact "
@@ -126,6 +178,10 @@ PROPS = {
               "structural monitor (trace probes and real pieces: count, order, end bits, piece == piece.derivative())"),
     ),
     "C09": dict(
+        technique='runtime monitoring: recorded log-integral events decided offline against the exact antiderivative t*Q(ln t) at 400 bits',
+        level_text='Exploration by runtime monitoring of integral(knot)/indefinite() on Log<Poly0-8> with knots and evaluation points deliberately away from 1 (where the unit tests are blind): through-knot value, F(b)-F(a) against the true integral, recurrence coefficients. This check found defect D1 on the pinned tree.',
+        level_note="Trusted: mpmath at 400 bits (guard at 800), glibc ln within 1 ulp, K=16(n+3), for degree 4 additionally the quartic form's stated accuracy 1e-12 S.",
+       
         kind=OFFLINE, oracle="c09.py",
         rule=("cases = distinct (degree 0-8, coefficient bits, knot, a, b) tuples with knot.x, a, b > 0 deliberately "
               "away from 1; the oracle builds the exact antiderivative t*Q(ln t) (rational recurrence, ln at 400 bits) "
@@ -136,6 +192,10 @@ PROPS = {
         assumptions=["f64::ln within one ulp", "400-bit reference; every 101st event recomputed at 800 bits"],
     ),
     "C10": dict(
+        technique='runtime monitoring: recorded evaluations of the quartic log-integral form decided offline at 400 bits; executed branch observed through hook H2',
+        level_text='Exploration by runtime monitoring of IntOfLogPoly4::evaluate: every float within 8 ulps of v=1 and of both switch points for a corpus of forms, +-3000 ulps randomly, dense sweep of x in [-40,40], 1e-300..1e300, with one-hot, benchmark-magnitude, integral-produced and random forms; error must be <= 1e-12 * sum|terms| and exactly k at v=1.',
+        level_note='Trusted: mpmath series/closed form at 400 bits (guard at 900 bits); the hook only labels the branch, it is not the oracle.',
+       
         kind=OFFLINE, oracle="c10.py",
         rule=("cases = distinct ((k,c1..c4,u) bits, v bits) evaluations of IntOfLogPoly4; v covers +-3000 ulps of 1 and "
               "of both series/closed-form switch points (located by bisection on the computed -ln v), dense sweep of "
@@ -144,6 +204,10 @@ PROPS = {
         assumptions=["400-bit reference; every 211th event recomputed at 900 bits"],
     ),
     "C11": dict(
+        technique='runtime monitoring: online trace-probe monitor for structure and iterator equivalence + recorded integrals decided offline at 400 bits',
+        level_text='Exploration by runtime monitoring of Piecewise::integral / indefinite / integral_iter(_ref) over Poly0-7 and Log<Poly0-8> pieces: breakpoints preserved, first piece through k0, continuity at every interior breakpoint, every piece an antiderivative, library evaluate(t) against k0.y + exact piecewise integral with an accumulated bound, by-value vs by-reference iterators bit for bit.',
+        level_note='Trusted: mpmath at 400 bits; K=16(n+3) per library evaluation accumulated over crossed pieces (+1e-12 S for quartic log pieces).',
+       
         kind=OFFLINE, oracle="c11.py",
         rule=("cases = distinct (piece type, all piece numbers, knot) piecewise functions over Poly0-7 and Log<Poly0-8> "
               "(1-40 pieces, duplicate breakpoints, knot inside / outside the first piece) for the value oracle, plus "
@@ -156,6 +220,10 @@ PROPS = {
                      "accumulated over the pieces crossed; quartic log pieces add 1e-12*sum|terms| (C10)"],
     ),
     "C04": dict(
+        technique='runtime monitoring: recorded spline constructions decided offline by an exact-rational Kruger oracle',
+        level_text='Exploration by runtime monitoring. constrained_spline is executed on generated knot families (monotone, oscillating, plateaux, collinear(+noise), geometric spacing, offsets to 1e9, scales 1e+-25, 3-60 knots); each returned cubic is evaluated exactly and compared with the knot ordinates and with the exact Kruger slopes under 64 u * interval-wide term magnitudes.',
+        level_note='Trusted: Python Fraction arithmetic; tolerance constant K=64 (first-order analysis ~25 u, largest observed 0.03 of the tolerance).',
+       
         kind=OFFLINE, oracle="c04.py",
         rule=("cases = distinct knot sequences (3-60 knots, strictly increasing x; families: integer grid, uneven, "
               "geometric spacing, offsets to 1e9, scales 1e+-25; monotone, oscillating, plateaux, ramps, collinear, "
@@ -166,6 +234,10 @@ PROPS = {
                      "secant slopes) are outside the domain and skipped (counted)"],
     ),
     "C05": dict(
+        technique='runtime monitoring: recorded spline constructions decided offline analytically (critical points of each cubic at 600 bits)',
+        level_text='Exploration by runtime monitoring. For every returned cubic the critical points are computed at 600 bits, so overshoot and monotonicity are decided for every real x of the interval rather than sampled; zero slope at data extrema / plateau edges, straight line for collinear knots and equality of the Hermite data with the exact Kruger spline are checked on the same event log.',
+        level_note='Trusted: mpmath root finding at 600 bits; Fraction arithmetic; K=64.',
+       
         kind=OFFLINE, oracle="c05.py",
         rule=("same event log as C04 with its own seed lane; per returned cubic the critical points (roots of P') are "
               "located at 600 bits, so overshoot beyond the knot ordinates and backtracking against the data direction "
@@ -174,6 +246,10 @@ PROPS = {
               "are compared with the exact Kruger spline (C04's check) so the whole curve coincides with it"),
     ),
     "C06": dict(
+        technique='runtime monitoring: recorded linear() constructions and evaluations decided offline by an exact-rational oracle',
+        level_text="Exploration by runtime monitoring. linear() is executed on generated knot slices (2-50 knots; increasing, repeated, out-of-order runs, gaps of 0 / EPSILON -+ 1 ulp, offsets to 1e15, scales 1e+-20); breakpoints, interpolation of the forced knots, constancy of narrow segments and the library's evaluate at / between / outside the knots are compared with exact rational arithmetic.",
+        level_note='Trusted: Fraction arithmetic; K=16; segments whose exact and computed width classify differently against EPSILON are skipped.',
+       
         kind=OFFLINE, oracle="c06.py",
         rule=("cases = distinct knot slices (2-50 knots: increasing, repeated, out-of-order runs, gaps of 0 / EPSILON "
               "-+ 1ulp, large offsets, scales) ; exact rational oracle: piece count, end_i == running maximum, segment "
